@@ -81,6 +81,8 @@ fn one_case(ctx: &Ctx, case: u64, l: &mut Local) {
         }
     };
     let steps = 1 + r.below(3);
+    let first_sel = cur_sel.clone();
+    let first_d = cur_d.clone();
     l.sample(case, || json!({"base": base_input(), "first_selection": cur_sel}));
     for step in 0..steps {
         let sel2 = gen::narrow_selection(&mut r, &cur_sel);
@@ -198,5 +200,37 @@ fn one_case(ctx: &Ctx, case: u64, l: &mut Local) {
         cur_pres = via;
         cur_sel = sel2;
         cur_d = d2;
+        // the converse: a holder that only has the narrowed presentation cannot WIDEN it again — asked
+        // for the first (larger) selection it fails or emits nothing beyond what it received, also
+        // when a holder for the full SD-JWT (same issuer-signed JWT) was opened on this thread just before
+        if cur_d.len() < first_d.len() {
+            let _ = api::holder_new(&issued.sd_jwt, cfg.fmt);
+            if let Outcome::Ok(mut h) = api::holder_new(&cur_pres, cfg.fmt) {
+                l.evals += 1;
+                match api::present(&mut h, &first_sel, None) {
+                    Outcome::Ok(p) => {
+                        let got = set_of(&p).unwrap_or_default();
+                        let had = set_of(&cur_pres).unwrap_or_default();
+                        if got.is_subset(&had) {
+                            l.count("widening.nothing-beyond-received");
+                        } else {
+                            l.violate(Violation {
+                                subcheck: "narrowed-holder-emits-disclosures-it-never-received".into(),
+                                class: class.into(),
+                                observed: format!("{} disclosure(s) that were not in the presentation the holder was built from", got.difference(&had).count()),
+                                case,
+                                detail: json!({"base": base_input(), "narrowed_presentation": cur_pres, "selection": first_sel, "result": p}),
+                            });
+                            return;
+                        }
+                    }
+                    Outcome::Err(_) => l.count("widening.refused"),
+                    pn @ Outcome::Panic(..) => {
+                        l.violate(Violation { subcheck: "panic".into(), class: class.into(), observed: pn.panic_signature().unwrap(), case, detail: json!({"base": base_input()}) });
+                        return;
+                    }
+                }
+            }
+        }
     }
 }
